@@ -41,6 +41,17 @@ def alphabet(full=True):
     A.append({"op": "incr", "k": "a", "d": 5, "nr": True})
     A.append({"op": "delete", "k": "a", "nr": True})
     A.append({"op": "touch", "k": "a", "e": 0, "nr": None})
+    # every reply-less form: the documented constant is returned and the effect still takes place
+    A.append({"op": "cas", "k": "a", "v": b"n", "cas": "FRESH", "nr": True})
+    A.append({"op": "cas", "k": "a", "v": b"n", "cas": b"99999", "nr": True})
+    A.append({"op": "replace", "k": "a", "v": b"r", "nr": True})
+    A.append({"op": "append", "k": "a", "v": b"+", "nr": True})
+    A.append({"op": "prepend", "k": "a", "v": b"-", "nr": True})
+    A.append({"op": "decr", "k": "a", "d": 1, "nr": True})
+    A.append({"op": "touch", "k": "a", "e": 100, "nr": True})
+    A.append({"op": "delete_many", "ks": ["a", "b"], "nr": True})
+    A.append({"op": "set_many", "items": [("a", b"5"), ("b", b"6")], "nr": True})
+    A.append({"op": "flush_all", "d": 0, "nr": True})
     A.append({"op": "flush_all", "d": 0, "nr": False})
     A.append({"op": "flush_all", "d": 50, "nr": None})
     for dt in (49, 50, 99, 100, 101):
@@ -52,7 +63,7 @@ def alphabet(full=True):
                 continue
             if c.get("k") == "b" and c["op"] not in ("set", "get"):
                 continue
-            if c["op"] in ("append", "prepend", "replace", "decr", "gat", "gats", "gets_many"):
+            if c["op"] in ("append", "prepend", "replace", "decr", "gat", "gats", "gets_many") and not (c["op"] in ("replace",) and c.get("nr")):
                 continue
             keep.append(c)
         A = keep
